@@ -19,8 +19,18 @@ def replay_tracking(rep):
     return False, {"mode": "all legal command sequences of length <= 4: nothing found"}
 
 
+def replay_model(rep):
+    from native import bounded_more
+    r = bounded_more.model_eval("quick", int(rep.get("seed", 0)))
+    if r["violations"]:
+        return True, {"mode": "exhaustive BV operands + generated formulas vs reference evaluator", "failure": r["violations"][0]}
+    return False, {"mode": "exhaustive BV operands + generated formulas: nothing found"}
+
+
 def dispatch(rep):
     kind = rep.get("kind")
+    if kind == "model":
+        return replay_model(rep)
     if kind == "tracking":
         return replay_tracking(rep)
     if kind == "logic":
